@@ -101,9 +101,20 @@ func c13Races(tier string) []*Scenario {
 	return scs
 }
 
+// unionTier: the union runs re-explore other properties' families; at the quick tier they
+// use those families' lightest bounds ("lite" = the cause alone at every point), at the
+// thorough tier their quick bounds.
+func unionTier(tier string) string {
+	if tier == "thorough" {
+		return "quick"
+	}
+	return "lite"
+}
+
 func c13Scenarios(tier string) []*Scenario {
 	var scs []*Scenario
 	scs = append(scs, c13Races(tier)...)
+	ut := unionTier(tier)
 	pick := func(prefix string, in []*Scenario, keep func(name string) bool) {
 		for _, sc := range monitorOnly("c13/union/", "C13", in) {
 			if keep == nil || keep(sc.Name) {
@@ -116,10 +127,10 @@ func c13Scenarios(tier string) []*Scenario {
 		return !strings.Contains(n, "/m1/") || strings.Contains(n, "/Bidi/") || strings.Contains(n, "/Unary/")
 	})
 	pick("", c02Scenarios(tier), func(n string) bool { return strings.Contains(n, "c02/s/") || strings.Contains(n, "c02/i3/") })
-	pick("", c07Scenarios(tier), nil)
-	pick("", c10Scenarios(tier), nil)
-	pick("", c04Scenarios(tier), func(n string) bool { return strings.HasSuffix(n, "/all") })
-	pick("", c16Scenarios(tier), func(n string) bool { return strings.Contains(n, "c16/c/") })
+	pick("", c07Scenarios(ut), nil)
+	pick("", c10Scenarios(ut), nil)
+	pick("", c04Scenarios(ut), func(n string) bool { return strings.HasSuffix(n, "/all") })
+	pick("", c16Scenarios(ut), func(n string) bool { return strings.Contains(n, "c16/c/") })
 	return scs
 }
 
@@ -186,14 +197,16 @@ func leakInvariant(w *World) func() string {
 			switch {
 			case strings.Contains(last, ":newStream#"):
 				watchers++
-			case strings.Contains(last, ":createStream#"), strings.Contains(last, ":serveStream#"):
+			case strings.Contains(last, ":serveStream#"):
+				// the per-stream context watcher; the handler goroutine itself runs application
+				// code and lives until the application's handler returns
 				handlers++
 			}
 		}
 		if watchers > liveClient {
 			return fmt.Sprintf("%d per-RPC client goroutines alive but only %d client streams are unfinished", watchers, liveClient)
 		}
-		if handlers > 2*liveServer {
+		if handlers > liveServer {
 			return fmt.Sprintf("%d per-RPC server goroutines alive but only %d server streams are unfinished", handlers, liveServer)
 		}
 		return ""
@@ -234,16 +247,17 @@ func c14Scenarios(tier string) []*Scenario {
 			}
 		}
 	}
-	add(c04Scenarios(tier), nil)
-	add(c07Scenarios(tier), nil)
-	add(c10Scenarios(tier), nil)
+	ut := unionTier(tier)
+	add(c04Scenarios(ut), nil)
+	add(c07Scenarios(ut), nil)
+	add(c10Scenarios(ut), nil)
 	add(c03Scenarios(tier), func(n string) bool { return !strings.Contains(n, "bin-") })
 	add(c01M3(tier), nil)
 	add(c09Scenarios(tier), func(n string) bool {
 		// the histories that open a stream first (the ones that allocate per-RPC state)
 		return strings.HasPrefix(n, "c14/union/c09/h1s/N0B,") || strings.HasPrefix(n, "c14/union/c09/h1c/Hd1,") || strings.HasPrefix(n, "c14/union/c09/h1c/Msg1")
 	})
-	add(c16Scenarios(tier), func(n string) bool { return strings.Contains(n, "/c16/a/") })
+	add(c16Scenarios(ut), func(n string) bool { return strings.Contains(n, "/c16/a/") })
 	return scs
 }
 
